@@ -63,7 +63,8 @@ def C19():
             "the guarantee is compared in dimensions < dim_max only (the top dimension of a truncated complex is not the homology "
             "of the untruncated one); births at 0 are at log-distance 0 of each other and infinitely far from anything else",
             "persistence of the output complex is computed by the reference reduction (GUDHI's persistence engine is C02's subject)",
-            "small scope: n <= 5 points (6 in thorough), spread (largest distance / smallest insertion radius) up to ~17",
+            "small scope: n <= 5 points (6 in thorough), spread (largest distance / smallest insertion radius) up to ~17; units of "
+            "length 1, 2^-60, 2^60 (double), 2^-30 (float) in quick, 2^-200 / 2^200 in thorough - exact rescalings of the same inputs",
         ],
         "runs": {
             "quick": [
@@ -73,8 +74,16 @@ def C19():
                 {"unit": D, "args": ["--fam", "grid", "--n", "3,4", "--coords", "0,1,3,9"], "shards": 2, "cores": 1},
                 {"unit": D, "args": ["--fam", "grid", "--n", "5", "--coords", "0,1,3,9"], "shards": 6, "cores": 1},
                 {"unit": F, "args": ["--fam", "grid", "--n", "3,4", "--coords", "0,1,3,9"], "cores": 1},
+                # the same inputs in other units of length (exact power-of-two factors): nothing may depend on the scale
+                {"unit": D, "args": ["--fam", "int", "--n", "2,3,4", "--vals", "1,2,5,9,10", "--scale2", "-60"], "shards": 3, "cores": 1},
+                {"unit": D, "args": ["--fam", "grid", "--n", "3,4", "--coords", "0,1,3,9", "--scale2", "60"], "shards": 2, "cores": 1},
+                {"unit": F, "args": ["--fam", "grid", "--n", "3,4", "--coords", "0,1,3,9", "--scale2", "-30"], "cores": 1},
             ],
             "thorough": [
+                {"unit": D, "args": ["--fam", "int", "--n", "2,3,4", "--vals", "1,2,5,9,10", "--scale2", "-60"], "shards": 2, "cores": 1, "timeout": 1500},
+                {"unit": D, "args": ["--fam", "int", "--n", "5", "--vals", "1,2,9,10", "--canon", "1", "--scale2", "-200"], "shards": 2, "cores": 1, "timeout": 1500},
+                {"unit": D, "args": ["--fam", "grid", "--n", "3,4,5", "--coords", "0,1,3,9", "--scale2", "200"], "shards": 4, "cores": 1, "timeout": 2400},
+                {"unit": F, "args": ["--fam", "grid", "--n", "3,4", "--coords", "0,1,3,9", "--scale2", "-30"], "shards": 2, "cores": 1, "timeout": 1500},
                 {"unit": D, "args": ["--fam", "int", "--n", "2,3,4", "--vals", "1,2,5,9,10"], "shards": 2, "cores": 1, "timeout": 1500},
                 {"unit": D, "args": ["--fam", "int", "--n", "5", "--vals", "1,2,9,10"] + G_ONLY, "shards": 8, "cores": 1, "timeout": 2400},
                 {"unit": D, "args": ["--fam", "int", "--n", "5", "--vals", "1,2,4,8"], "shards": 4, "cores": 1, "timeout": 2400},
